@@ -36,7 +36,7 @@ func constVal(c *ssa.Const) Value {
 	t := c.Type().Underlying()
 	if b, ok := t.(*types.Basic); ok && b.Info()&types.IsFloat != 0 {
 		f, _ := constant.Float64Val(c.Value)
-		return FloatV{f}
+		return FloatV{F: f}
 	}
 	switch c.Value.Kind() {
 	case constant.Int:
@@ -54,7 +54,7 @@ func constVal(c *ssa.Const) Value {
 		if b, ok := t.(*types.Basic); ok && b.Info()&types.IsInteger != 0 {
 			return mkInt(int64(f))
 		}
-		return FloatV{f}
+		return FloatV{F: f}
 	}
 	panic(engineErr("const kind " + c.String()))
 }
@@ -189,7 +189,7 @@ func (w *Worker) step(s *State, f *Frame, in ssa.Instruction) ([]*State, bool) {
 					f.Env[x] = symInt("(- " + a.T + ")")
 				}
 			case FloatV:
-				f.Env[x] = FloatV{-a.F}
+				f.Env[x] = FloatV{F: -a.F}
 			}
 		case token.ARROW:
 			return w.chanRecv(s, f, x, v.(ChanV), x.CommaOk)
@@ -368,15 +368,18 @@ func (w *Worker) binop(s *State, op token.Token, a, b Value, xt types.Type) Valu
 		return w.arith(s, op, x, y, xt)
 	case FloatV:
 		y := b.(FloatV)
+		if x.Ns != "" || y.Ns != "" {
+			panic(engineErr("floating-point arithmetic on a symbolic duration"))
+		}
 		switch op {
 		case token.ADD:
-			return FloatV{x.F + y.F}
+			return FloatV{F: x.F + y.F}
 		case token.SUB:
-			return FloatV{x.F - y.F}
+			return FloatV{F: x.F - y.F}
 		case token.MUL:
-			return FloatV{x.F * y.F}
+			return FloatV{F: x.F * y.F}
 		case token.QUO:
-			return FloatV{x.F / y.F}
+			return FloatV{F: x.F / y.F}
 		case token.EQL:
 			return mkBool(x.F == y.F)
 		case token.NEQ:
@@ -712,7 +715,7 @@ func (w *Worker) convert(s *State, v Value, from, to types.Type) Value {
 				panic(engineErr("symbolic narrowing conversion to " + to.String()))
 			case tb.Info()&types.IsFloat != 0:
 				if x.C {
-					return FloatV{float64(x.N)}
+					return FloatV{F: float64(x.N)}
 				}
 				panic(engineErr("symbolic int to float conversion"))
 			case tb.Info()&types.IsString != 0:
@@ -724,6 +727,13 @@ func (w *Worker) convert(s *State, v Value, from, to types.Type) Value {
 		}
 	case FloatV:
 		if tb, ok := tu.(*types.Basic); ok {
+			if x.Ns != "" {
+				if tb.Info()&types.IsInteger != 0 {
+					// truncation toward zero of Ns/1e9
+					return symInt("(ite (>= " + x.Ns + " 0) (div " + x.Ns + " 1000000000) (- (div (- " + x.Ns + ") 1000000000)))")
+				}
+				return x
+			}
 			if tb.Info()&types.IsInteger != 0 {
 				if math.IsNaN(x.F) || math.IsInf(x.F, 0) {
 					return mkInt(0)
